@@ -36,6 +36,7 @@ def run(tier, seed, replay=None):
         'allocation invariants after Synchronize are the C01-C04 theorems (they hold for every operation sequence); evaluated here by the same oracles on the post-Synchronize state',
         'restart = new resource-manager instance on the same state directory; the on-disk cache is whatever the last Save wrote, which includes saves made in the middle of requests (saveAllocations before applyGrant, InsertContainer in state creating)',
         'runtime state at restart: listing derived from the history with random removals and state changes',
+        'Persist_Model.v: the cache file is compared with the live cache after every request; gen_flush_saves is re-extracted from getPendingUpdates by flush2coq on every run',
     ]
     chk.prove('C11_Props')
     zoo, paths = prepare_machines(chk)
@@ -43,10 +44,12 @@ def run(tier, seed, replay=None):
     if not binary:
         return chk.finish(rule='harness build failed')
     scripts = gen(chk, tier, zoo, paths)
+    scripts = maybe_replay(chk, replay, scripts, zoo, paths)
     traces = run_histories(chk, binary, [{k: v for k, v in s.items() if not k.startswith('_')} for s in scripts])
     nfind = collections.Counter()
     cases = []
-    nsync = nrestart = 0
+    nsync = nrestart = ndisk = 0
+    pcases = []
     def viol(sc, f):
         nfind[(f['prop'], f['sig'])] += 1
         chk.violation(f['sig'], '%s [%s] history %s event %d: %s' % (f['prop'], f['clause'], sc['name'], f['seq'], f['what']),
@@ -61,6 +64,8 @@ def run(tier, seed, replay=None):
         never_admitted = set()   # containers whose creation the plugin refused: the runtime would not list them
         cid = lambda c: ids.setdefault(c, len(ids))
         pid = lambda p: pids.setdefault(p, len(pids))
+        pcase = []
+        pcases.append((sc['name'], pcase))
         for rec, (cfg, _) in zip(recs, cfgs):
             if rec['seq'] < 0:
                 prev = rec
@@ -69,6 +74,26 @@ def run(tier, seed, replay=None):
             for f in fsoracle.c05_findings(rv, ev, rec, prev['cache'] if prev else None):
                 if rec['op'] == 'Synchronize' and f['clause'] == 'view-eq-cache':
                     viol(sc, dict(f, prop='C11', clause='updates-bring-runtime-in-line'))
+            # the cache file vs the live cache (what a restart right now would start from)
+            if rec['op'] != 'Restart' and rec.get('disk') is not None:
+                disk = {c['id']: c for c in rec['disk']}
+                stale = sorted(c['id'] for c in rec['cache'] if c['id'] not in disk or
+                               (c['cpus'], c['mems'], c['shares']) != (disk[c['id']]['cpus'], disk[c['id']]['mems'], disk[c['id']]['shares']))
+                flushes = rec['op'] in ('CreateContainer', 'UpdateContainer', 'StopContainer', 'Synchronize', 'Reconfigure') and rec['reply']['class'] == 'ok'
+                writes = []
+                for call in rec.get('calls') or []:
+                    if call[0].startswith('Set') and call[0] != 'SetResourceUpdates' and call[1] not in writes:
+                        writes.append(call[1])
+                pcase.append('({| p_calls := [%s]; p_flushes := %s |}, [%s])' % ('; '.join('PWrite %d' % cid(w) for w in writes), coq_bool(flushes), '; '.join(str(cid(x)) for x in stale)))
+                ndisk += 1
+                if flushes and stale:
+                    c0 = next(c for c in rec['cache'] if c['id'] == stale[0])
+                    viol(sc, F('C11', 'saved-cache-in-line', 'cache-file-stale-after-flushed-request',
+                               '%s replied ok, but the cache file a restart would load differs from the live cache for %s (e.g. %s: live cpus=%r shares=%r, file %r)' % (
+                                   rec['op'], stale, c0['id'], c0['cpus'], c0['shares'], disk.get(c0['id'])), rec['seq']))
+            if rec['op'] == 'Restart':
+                pcase = []      # the model restarts from the file: nothing stale
+                pcases.append((sc['name'], pcase))
             if rec['op'] == 'CreateContainer':
                 (never_admitted.add if rec['reply']['class'] != 'ok' else never_admitted.discard)(ev['ctr']['id'])
             if rec['op'] == 'Restart':
@@ -133,6 +158,20 @@ def run(tier, seed, replay=None):
             chk.corr_broken('Sync_Model/' + os.path.basename(p), 'coqc failed:\n' + out[-1500:])
         elif body.strip() != '[]':
             chk.corr_broken('Sync_Model', 'classification differs from the implementation on cases %s of %s' % (body.strip()[:200], p))
+    # persistence model: the stale set predicted from the observed writes covers the observed one
+    pc = [(n, c) for n, c in pcases if c]
+    pf = os.path.join(chk.work, 'cases_persist.v')
+    with open(pf, 'w') as f:
+        f.write('From Coq Require Import List. Import ListNotations.\nFrom stdpp Require Import gmap.\nFrom NV Require Import Persist_Model Gen.Gen_Flush.\nOpen Scope nat_scope.\n')
+        f.write('Definition M := Eval vm_compute in [%s].\nPrint M.\n' % ';\n'.join('pcheck gen_flush_saves ∅ 0 [%s]' % '; '.join(c) for _, c in pc))
+    (rc, out), = coq_eval_many([pf])
+    body = parse_coq_print(out, 'M')
+    if rc != 0 or body is None:
+        chk.corr_broken('Persist_Model', 'coqc failed:\n' + out[-1500:])
+    else:
+        for (name, _), it in zip(pc, split_top(body.strip()[1:-1])):
+            if it.strip() != 'None':
+                chk.corr_broken('Persist_Model:' + name, 'history %s: the cache file is stale for a container the model says is saved (request index %s)' % (name, it.strip()))
     nt = sum(1 for r in traces.values() if nontrivial_history(r))
     events = sum(len(r) for r in traces.values())
     chk.samples += [{'history': s['name'], 'policy': s['policy'], 'restarts': sum(1 for e in s['events'] if e['op'] == 'Restart')} for s in scripts[:2]] + [{'sync_case': (cases or [''])[0][:400]}]
@@ -140,7 +179,7 @@ def run(tier, seed, replay=None):
         rule='random histories under both policies cut by restarts (new instance on the saved state) at random request boundaries, each followed by Synchronize with a runtime listing perturbed by removals and state changes; repeated restarts; '
              'non-trivial as for C01',
         evaluations=events, distinct=nt, traces=len(traces),
-        extra_cov={'histories': len(traces), 'events': events, 'synchronize_checked': nsync, 'restarts': nrestart, 'classification_cases': len(cases),
+        extra_cov={'histories': len(traces), 'events': events, 'synchronize_checked': nsync, 'restarts': nrestart, 'classification_cases': len(cases), 'cache_file_comparisons': ndisk,
                    'oracle_findings': {'%s/%s' % k: v for k, v in nfind.items()}})
 
 
